@@ -405,11 +405,12 @@ func (bs *BinarySpray) ReportFailure(bp BundleDescriptor, sender cla.Convergence
 		}).Warn("No metadata")
 		return
 	}
-	binarySprayBlock.SetCopies(metadata.remainingCopies + binarySprayBlock.RemainingCopies())
-
+	// The copies announced to this peer were not handed over: take them back into our own count.
+	// Only a peer selected by SenderForBundle was given copies (not a failed direct delivery).
 	for i := 0; i < len(metadata.sent); i++ {
 		if metadata.sent[i] == sender.GetPeerEndpointID() {
 			metadata.sent = append(metadata.sent[:i], metadata.sent[i+1:]...)
+			metadata.remainingCopies = metadata.remainingCopies + binarySprayBlock.RemainingCopies()
 			break
 		}
 	}
